@@ -242,8 +242,16 @@ def plan(prop, tier, seed, find):
                     nontrivial=("decided sub-case with >= 2 explored paths", lambda r: r["paths"] >= 2))
     bound_solve = ("table models over mask states: n<=4 variables, <=3 base states, 2 decisions, 4-6 symbolic arc costs in +-10^6 (the other costs concrete, seeded), "
                    "configurations {LEL, frontier, pooled} x {no cache, SimpleCache} x {SimpleFringe, NoDupFringe} x widths {1, 2, NbUnassigned} x rub {none, h+symbolic slack} x both rankings; per sub-case budget %s" % _limits(tier))
+    def cached_directed(props_):
+        famd = dict(n=4, b=2, d=2, setnext=1, nsym=6)
+        out_ = []
+        for k, sd in enumerate(find([], famd, 6 if tier == "quick" else 32, seed * 1000 + 1, dyn=dict(_solve=True, notes="cache_skip_at_pop", dd="lel", width=1, tries=24))):
+            for dd in ("lel", "frontier", "pooled"):
+                out_.append(P(kind="solve", dd=dd, cache=1, fringe=("nodup" if k % 2 else "simple"), width="1,2", mode="plain", seed=sd, rub="none", rev=0, sym_init=0, warm=0, kmax=40, props=props_, **famd, **_limits(tier)))
+        return out_
+
     if prop == "C01":
-        return dict(engine="symx", bundles=_solve_bundles(tier, seed, find, "C01", ["plain"], directed=("dead_end",)), prefixes=["C01:", "nontermination"], vacuity=dict(explored_ge2=1, merge=1), functions=FUNCS_SOLVE, bounds=bound_solve,
+        return dict(engine="symx", bundles=_solve_bundles(tier, seed, find, "C01", ["plain"], directed=("dead_end",)) + cached_directed("C01"), prefixes=["C01:", "nontermination"], vacuity=dict(explored_ge2=1, merge=1), functions=FUNCS_SOLVE, bounds=bound_solve,
                     nontrivial=("decided sub-case in which the solver processed >= 2 sub-problems on some path", lambda r: r["notes"].get("explored_ge2", 0) > 0))
     if prop == "C02":
         return dict(engine="symx", bundles=_solve_bundles(tier, seed, find, "C02", ["plain", "cutoff"], nseeds=(1 if tier == "quick" else 6)) + _par_bundles(tier, seed, "C02", ["plain", "cutoff"], nseeds=(1 if tier == "quick" else 4), dds=["lel", "pooled"]), prefixes=["C02:"], vacuity=dict(interrupted=1, not_interrupted=1), functions=FUNCS_SOLVE, bounds=bound_solve + "; cut-off poll K symbolic in 1..40 (every poll of the run forks)",
@@ -272,17 +280,37 @@ def plan(prop, tier, seed, find):
             for dd in DD3:
                 ii += 1
                 inv.append(P(kind="dd", dd=dd, comp="relaxed", seed=seed * 1000 + 850 + k, width="2", roots="0", rub="hslack", lb="sym", hist=2, hist_seed=ii, rev=ii % 2, props="C09", n=4, b=2, d=2, setnext=1, nsym=8, **limi))
+        # deep multi-step variant: n=5, width 1, up to five consecutive solver steps (oldest open node first) so that a later
+        # diagram meets thresholds cached by an earlier one; seeds directed on "a compilation hit the cache"
+        famv = dict(n=5, b=2, d=2, setnext=1, nsym=8)
+        limv = dict(max_paths=400, max_secs=8) if tier == "quick" else dict(max_paths=20000, max_secs=600)
+        for sd in find([], famv, 6 if tier == "quick" else 32, seed * 1000 + 1, dyn=dict(notes="cache_hit_in_compile", dd="lel", width=1, roots=0, hist=4, hist_seed=0, props="C09", tries=16)):
+            for dd in DD3:
+                ii += 1
+                inv.append(P(kind="dd", dd=dd, comp="relaxed", seed=sd, width="1", roots="0", rub=("hslack" if ii % 3 == 0 else "none"), lb=("sym" if ii % 2 else "none"), hist=4, hist_seed=(ii % 2), rev=0, props="C09", **famv, **limv))
         parc = _par_bundles(tier, seed, "C09", ["plain"], variants=[dict(threads=2, preempt=1, cache=1, fringe="simple", mapyield=1), dict(threads=2, preempt=2, cache=1, fringe="nodup"), dict(threads=3, preempt=1, cache=1, fringe="simple")], nseeds=(1 if tier == "quick" else 6))
-        return dict(engine="symx", bundles=inv + _solve_bundles(tier, seed, find, "C09", ["plain"], fams=fams, caches=("1",), nseeds=(2 if tier == "quick" else 12)) + parc, prefixes=["C09:", "nontermination"], vacuity=dict(explored_ge2=1, explored_ge4=1, threshold_checked=1, second_step=1), functions=FUNCS_SOLVE + ["kani: Cache::must_explore"], bounds=bound_solve + "; SimpleCache only, re-convergent structures (2 base states per layer); diagram level: the solver step (restricted then relaxed compilation against the real SimpleCache, cut-set kept as open set) on every reachable root with symbolic incumbent, followed by one or two further steps on seeded cut-set nodes, threshold invariant checked after each step",
+        return dict(engine="symx", bundles=inv + _solve_bundles(tier, seed, find, "C09", ["plain"], fams=fams, caches=("1",), nseeds=(2 if tier == "quick" else 12)) + parc + cached_directed("C09"), prefixes=["C09:", "nontermination"], vacuity=dict(explored_ge2=1, explored_ge4=1, threshold_checked=1, second_step=1), functions=FUNCS_SOLVE + ["kani: Cache::must_explore"], bounds=bound_solve + "; SimpleCache only, re-convergent structures (2 base states per layer); diagram level: the solver step (restricted then relaxed compilation against the real SimpleCache, cut-set kept as open set) on every reachable root with symbolic incumbent, followed by one or two further steps on seeded cut-set nodes, threshold invariant checked after each step",
                     nontrivial=("decided sub-case in which the solver processed >= 2 sub-problems on some path", lambda r: r["notes"].get("explored_ge2", 0) > 0), kani=["C09"])
     bound_par = ("table models n=3, <=3 base states, 2-3 symbolic arc costs; 1-3 workers (thorough: up to 4), pre-emption bound 1-2 (thorough: up to 3), every lock acquisition / condvar wait / worker exit a scheduling choice, "
                  "cache calls too where mapyield=1; step bound 3000; counterexamples replay concretely on the scheduled build; per sub-case budget quick 800 paths/15 s")
     if prop == "C03":
-        return dict(engine="sched", bundles=_par_bundles(tier, seed, "C03", ["plain"]), prefixes=["C03:", "C04:", "nontermination"], vacuity=dict(context_switch=1, preemption=1, condvar_wait=1, explored_ge2=1), functions=FUNCS_PAR, bounds=bound_par,
+        # deeper on the publication races: 2 workers, 2 pre-emptions, 4 symbolic costs, many structures, one diagram type
+        deep = []
+        limd = dict(max_paths=4000, max_secs=40) if tier == "quick" else dict(max_paths=60000, max_secs=1200)
+        for k in range(14 if tier == "quick" else 48):
+            deep.append(P(kind="par", dd=("lel" if k % 3 else "frontier"), cache=str(k % 2 if k % 4 == 3 else 0), fringe="simple", width="1", threads=2, preempt=2, mode="plain", seed=seed * 1000 + 600 + k, rub="none", rev=k % 2, props="C03", n=3, b=2, d=2, setnext=1, nsym=4, _engine="sched", **limd))
+        return dict(engine="sched", bundles=_par_bundles(tier, seed, "C03", ["plain"]) + deep, prefixes=["C03:", "C04:", "nontermination"], vacuity=dict(context_switch=1, preemption=1, condvar_wait=1, explored_ge2=1), functions=FUNCS_PAR, bounds=bound_par,
                     nontrivial=("decided sub-case with at least one pre-emptive context switch on some path", lambda r: r["notes"].get("preemption", 0) > 0))
     if prop == "C04":
         variants = [dict(threads=c, threads_after=t, preempt=p, cache=ca, fringe="simple") for (c, t, p, ca) in [(1, 2, 1, 0), (2, 1, 1, 0), (2, 3, 1, 0), (1, 3, 1, 1), (2, 2, 2, 0), (3, 2, 1, 1), (1, 1, 0, 0)]]
-        return dict(engine="sched", bundles=_par_bundles(tier, seed, "C04", ["plain", "cutoff"], variants=variants, nseeds=(1 if tier == "quick" else 5)), prefixes=["C04:", "nontermination"], vacuity=dict(context_switch=1, condvar_wait=1, interrupted=1), functions=FUNCS_PAR,
+        # deeper data exploration with the cache on (stale fringe nodes discarded at pop time): few workers, larger models
+        deep = []
+        limd = dict(max_paths=1500, max_secs=20) if tier == "quick" else dict(max_paths=40000, max_secs=900)
+        famd = dict(n=4, b=2, d=2, setnext=1, nsym=6)
+        stale = find([], famd, 8 if tier == "quick" else 32, seed * 1000 + 1, dyn=dict(_solve=True, notes="cache_skip_at_pop", dd="lel", width=1, tries=24))
+        for k, sd in enumerate(stale + [seed * 1000 + 650 + j for j in range(4 if tier == "quick" else 16)]):
+            deep.append(P(kind="par", dd="lel,frontier", cache=1, fringe=("nodup" if k % 4 == 3 else "simple"), width="1,2", threads=(2 if k % 3 == 2 else 1), preempt=(1 if k % 3 == 2 else 0), mode="plain", seed=sd, rub="none", rev=0, props="C04", _engine="sched", **famd, **limd))
+        return dict(engine="sched", bundles=_par_bundles(tier, seed, "C04", ["plain", "cutoff"], variants=variants, nseeds=(1 if tier == "quick" else 5)) + deep, prefixes=["C04:", "nontermination"], vacuity=dict(context_switch=1, condvar_wait=1, interrupted=1), functions=FUNCS_PAR,
                     bounds=bound_par + "; thread count at construction 1..3 and after with_nb_threads 1..3 (including counts larger and smaller than at construction); cut-off poll K symbolic in 1..16",
                     nontrivial=("decided sub-case with at least one condvar wait on some path", lambda r: r["notes"].get("condvar_wait", 0) > 0))
     if prop == "C15":
